@@ -374,6 +374,32 @@ func hostileWorkload(r *mon.Run, run func(hostileCase) (consumedIfAllRejected in
 			}
 		}
 	}
+	// (f2) rule values of every magnitude on a matching example (accepted ones are also converted to OpenAPI)
+	{
+		mags := []string{"0", "1", "7", "400", "65535", "65536", "2147483647", "2147483648", "4294967295", "4294967296", "300000000", "300000000000000", "9007199254740993",
+			"1000000000000000000", "9000000000000000000", "9223372036854775807", "9223372036854775808", "18446744073709551615", "18446744073709551616", "100000000000000000000"}
+		shapes := []struct{ ex, rule string }{
+			{"1.5", "precision"}, {`"abc"`, "minLength"}, {`"abc"`, "maxLength"}, {"[]", "minItems"}, {"[]", "maxItems"}, {"[\n  1\n]", "maxItems"}, {"5", "min"}, {"5", "max"}, {"5.5", "min"}, {"5.5", "max"},
+		}
+		mi := 0
+		for _, sh := range shapes {
+			for _, m := range mags {
+				if r.Mine(mi) {
+					ann := " // {" + sh.rule + ": " + m + "}"
+					if strings.HasPrefix(sh.ex, "[\n") {
+						text(epSchema, "[ // {"+sh.rule+": "+m+"}\n  1\n]", "rule value magnitudes")
+					} else {
+						text(epSchema, sh.ex+ann, "rule value magnitudes")
+					}
+					text(epSchema, "{\n  \"k\": "+strings.ReplaceAll(sh.ex, "\n", "")+ann+"\n}", "rule value magnitudes")
+					text(epSchema, `1.5 // {or: [{type: "decimal", `+sh.rule+": "+m+`}, {type: "string"}]}`, "rule value magnitudes")
+					text(epSchema, sh.ex+" // {"+sh.rule+": -"+m+"}", "rule value magnitudes")
+					text(epSchema, sh.ex+" // {"+sh.rule+": "+m+".0}", "rule value magnitudes")
+				}
+				mi++
+			}
+		}
+	}
 	// (e) nesting ladder
 	li := 0
 	for _, d := range []int{10, 100, 1000, r.Pick(2000, 10_000)} {
@@ -516,7 +542,7 @@ func init() {
 		ID:                 "C02",
 		Run:                func(r *mon.Run) { hostileRun(r, c02Judge(r)) },
 		Replay:             hostileReplay(c02Judge),
-		Rule:               "hostile inputs to every public entry point (JSchema Len/Check/Example/GetAST/UsedUserTypes/AddType/AddRule, Enum Len/Check/Values/GetAST, RSchema Check/Len/Example/GetAST/Pattern/AddType, Document Check/Len/NextLexeme in both modes, NewNumber, GuessSchemaType, OpenAPI conversion of accepted schemas), each call on fresh objects under a recover: (a) every token string up to a length bound per family (schema 34 tokens, len 3 quick / 5 thorough, with viable-prefix pruning from the H3 scanner probe; enum, regex, number, document alphabets; every number-shaped byte string over 0 1 - + . e x up to 5 / 6 hosted in an enum rule, a schema value, a rule value and a document; annotation bodies: 19 compound tokens (incl. the empty string) up to 5 / 6 inside `1 /* … */` and after `1 // `), (b) every truncation, token deletion/duplication/substitution and CRLF/CR variant of every string literal harvested from the repository's tests, (c) random byte and token soups up to 9 KiB, (d) all 1-type (and, thorough, 2-type; sampled 2/3-type) projects of self/mutually referencing user types from 18 reference templates, (d') 81 x 4 projects with a check-time defect inside a member that other types inherit through allOf or reach by reference (heir named before and after the base, member behind padding lines), (d2) C07's exhaustive small allOf / additionalProperties graphs and 1.6k / 40k random ones, (d3) texts whose first or second line is 100 B .. 70 KB long with a defect on a later line under LF / CRLF / CR, (d4) layered projects of 6..64 layers with two types per layer in seven reference forms (work must not grow with the number of routes), (e) nesting ladder up to 2000 (quick) / 10000 (thorough). A violation is an escaped panic, a worker death or CPU-budget overrun that reproduces in a fresh process, or a scan using more than 2*len+8 steps. distinct_nontrivial = distinct (entry family, text) / projects (hashed).",
+		Rule:               "hostile inputs to every public entry point (JSchema Len/Check/Example/GetAST/UsedUserTypes/AddType/AddRule, Enum Len/Check/Values/GetAST, RSchema Check/Len/Example/GetAST/Pattern/AddType, Document Check/Len/NextLexeme in both modes, NewNumber, GuessSchemaType, OpenAPI conversion of accepted schemas), each call on fresh objects under a recover: (a) every token string up to a length bound per family (schema 34 tokens, len 3 quick / 5 thorough, with viable-prefix pruning from the H3 scanner probe; enum, regex, number, document alphabets; every number-shaped byte string over 0 1 - + . e x up to 5 / 6 hosted in an enum rule, a schema value, a rule value and a document; annotation bodies: 19 compound tokens (incl. the empty string) up to 5 / 6 inside `1 /* … */` and after `1 // `), (b) every truncation, token deletion/duplication/substitution and CRLF/CR variant of every string literal harvested from the repository's tests, (c) random byte and token soups up to 9 KiB, (d) all 1-type (and, thorough, 2-type; sampled 2/3-type) projects of self/mutually referencing user types from 18 reference templates, (d') 81 x 4 projects with a check-time defect inside a member that other types inherit through allOf or reach by reference (heir named before and after the base, member behind padding lines), (d2) C07's exhaustive small allOf / additionalProperties graphs and 1.6k / 40k random ones, (d3) texts whose first or second line is 100 B .. 70 KB long with a defect on a later line under LF / CRLF / CR, (d4) layered projects of 6..64 layers with two types per layer in seven reference forms (work must not grow with the number of routes), (f2) every numeric rule with 20 magnitudes from 0 to 10^20 on a matching example, (e) nesting ladder up to 2000 (quick) / 10000 (thorough). A violation is an escaped panic, a worker death or CPU-budget overrun that reproduces in a fresh process, or a scan using more than 2*len+8 steps. distinct_nontrivial = distinct (entry family, text) / projects (hashed).",
 		MinNontrivialQuick: 100000, MinNontrivialThorough: 1000000,
 		Assumptions: []string{"inputs up to 64 KiB and nesting up to 10^4 (deeper nesting costs tens of CPU-seconds per call on this tree: slow, but it returns); exponents above 10^6 are rejected by the library since the fix recorded in known_findings.jsonl", "OpenAPI conversion is only exercised for accepted schemas",
 			"a process death counts only if it reproduces on the same case in a fresh process; CPU budget 300 s per case (process CPU time, not wall clock)"},
